@@ -59,7 +59,7 @@ func checkC08(t *rapid.T, tr *twinRun) {
 		if tr.ssIndex != tr.k {
 			vfhelp.Fail(t, "c08-snapshot-index", "snapshot requested with %d applied captured index %d", tr.k, tr.ssIndex)
 		}
-		s := tr.b.saves[len(tr.b.saves)-1]
+		s := tr.bSave
 		if s.Term != tr.ents[tr.ssIndex-1].Term {
 			vfhelp.Fail(t, "c08-snapshot-term", "snapshot %d carries term %d, entry term %d", s.Index, s.Term, tr.ents[tr.ssIndex-1].Term)
 		}
@@ -98,7 +98,7 @@ func checkC08(t *rapid.T, tr *twinRun) {
 		if len(rec) != 0 {
 			vfhelp.Fail(t, "c08-unexpected-recover-call", "user SM RecoverFromSnapshot called (%v) although there is no payload to recover (snapshot %d, dummy %t)", rec, tr.ssIndex, dummy)
 		}
-	case tr.kind == kOnDisk && len(rec) == 0 && tr.refAt[tr.lagAt] == tr.refAt[tr.ssIndex]:
+	case tr.kind == kOnDisk && len(rec) == 0 && tr.preUser == tr.refAt[tr.ssIndex]:
 		// streamed snapshot without anything the on-disk SM does not have yet
 		// (no Update between C's position and the snapshot): nothing to load
 	default:
